@@ -139,6 +139,31 @@ theorem C09_retry_waits_empty_handed_with_the_table_untouched (pol : Policy) (t 
   refine ⟨e', ?_, by simpa using h5⟩
   simpa [toRaw, toRaw?, retryLock, hf] using h4
 
+-- @theorem C09_retry_waits_holding_only_a_prefix_of_the_blocked_member : the same with owned groups allowed (any members): run alone against a quiescent table in which some leaf is not free, the blocking acquisition of a retrying collection ends up waiting, and at that point the table is the initial one plus a PROPER PREFIX of the footprint of ONE member — the member it is blocked inside (nothing at all when that member is a leaf; the earlier leaves of the group when it is an owned group, finding D17); every other member has been released
+theorem C09_retry_waits_holding_only_a_prefix_of_the_blocked_member (pol : Policy) (t : Tid) (W : World) (f : Nat)
+    (hf : W.fuel = f + 2) (s : Shape) (m : Mode) (e : Env)
+    (hnd : (declLeaves (.retry s)).Nodup) (hq : Quiescent e)
+    (hbusy : (holdsOf (.retry s) m).all (freeFor e) = false) :
+    ∃ p ∈ getPtrs W s, StuckWith pol t e (p.fp m) (solo pol t ((toRaw W (.retry s)).acq m) e) := by
+  have hn := shapeFp_ids_nodup W (.retry s) m rfl hnd
+  have hw := quiescent_notWaiting t e hq
+  have hnall : ¬ ∀ p ∈ shapeFp W (.retry s) m, avail pol e p = true := by
+    intro h
+    have : (holdsOf (.retry s) m).all (freeFor e) = true := by
+      rw [List.all_eq_true]
+      intro p hp
+      rw [← avail_quiescent pol e hq]
+      exact h p ((shapeFp_perm W m (.retry s) rfl).mem_iff.2 hp)
+    rw [this] at hbusy; cases hbusy
+  obtain ⟨l, hl, hst⟩ :=
+    (det_retry_acq (pol := pol) (t := t) f (ptrsM (getPtrs W s)) (getPtrs_det W s) (getPtrs_detA W s)
+      m e hw (by simpa [shapeFp] using hn) (calm_of_quiescent e hq _)).2 (by simpa [shapeFp] using hnall)
+  simp only [ptrsM, List.mem_map] at hl
+  obtain ⟨p, hp, rfl⟩ := hl
+  rw [ptrsM_locks] at hst
+  refine ⟨p, hp, ?_⟩
+  simpa [toRaw, toRaw?, retryLock, hf] using hst
+
 /-- non-vacuity: three leaves, the middle one write-held by thread 7; the hypotheses of both
 theorems are met by concrete tables -/
 example :
